@@ -386,7 +386,7 @@ def main(run):
         run.proof_failure_violation()
     nruns = sum(len(rs) for c in cases for rs in c.obs.values())
     feats = {"embedding": 0, "embedding_in_K_embed_order_class": 0, "shoot_new_marks": 0, "generic": 0,
-             "map_shootnew_side": 0, "map_mapper_funcs": 0, "map_pointer_embed": 0, "star_mode": 0, "file_mode": 0,
+             "map_shootnew_side": 0, "map_mapper_funcs": 0, "map_pointer_embed": 0, "map_nested_struct_field": 0, "star_mode": 0, "file_mode": 0,
              "two_files": 0, "failed_runs": 0}
     for c in cases:
         s = c.spec
@@ -406,6 +406,8 @@ def main(run):
             feats["map_shootnew_side"] += bool(s.auxcmd or s.destauxcmd)
             feats["map_mapper_funcs"] += any(isinstance(d, histgen.Funcs) for f in s.hfiles for d in f.decls)
             feats["map_pointer_embed"] += any(isinstance(it, histgen.Embed) and it.ptr for st in s.structs() for it in st.items)
+            feats["map_nested_struct_field"] += any(isinstance(it, histgen.SField) and it.name.startswith("Part")
+                                                    for st in s.structs() for it in st.items)
     cov = {
         "evaluations": nruns,
         "distinct_nontrivial": len({json.dumps(c.spec.files(), sort_keys=True) for c in cases if nontrivial(c)}),
@@ -445,7 +447,7 @@ TRUSTED = [
     "replacing/adding by file name, sorted by name; go/types lookups (Scope.Lookup, AssignableTo) as first match in that order",
     "the per-type analyses (field flattening and shadowing, directive parsing, name/type matching of the mapper on the "
     "palette int/int64/int32/float64/string/bool, rest parameter classification) are transcribed for the compact grammar "
-    "of harness/histgen.py only; sub-struct mapping, manual toX/fromX methods, -alias/-to/-i, -tagcase, -short, enum -bit/-sql "
+    "of harness/histgen.py only (mapper: the non-slice form of makeSubMap included); slice sub-mapping, manual toX/fromX methods, -alias/-to/-i, -tagcase, -short, enum -bit/-sql "
     "are outside this model (other properties cover them)",
     "comment attachment in MergeSources (byte distance < 10) is modelled as: doc comments stay with their declaration, and "
     "a declaration without doc comment also receives the comment that ends the previous declaration of the same source",
@@ -463,6 +465,11 @@ ASSUMPTIONS = [
     "K_merge_stray_comment (open): for rest the all-in-one file carries one extra free-floating /*noop*/ per client "
     "before func init(); the model reproduces it; only those are tolerated in excess (their number must equal the number of init "
     "declarations); declarations, doc comments and imports are compared exactly",
+    "the random `new` packages stay out of two name-collision classes that belong to open constructor findings: a name reached "
+    "twice at the same depth (K_ctor_ambiguous_promoted: option function / parameter printed twice; two corpus cases keep exactly "
+    "that shape under comparison) and a field whose accessor is named like a type of the package (an embedded field then hides "
+    "the promoted accessor method, which the model's assignability test does not know); strict shadowing at different depths is "
+    "generated",
     "refused runs are judged: the listing run may be refused only if some -type=T run is; a -type=T run refused although the listing "
     "run succeeds (a type the listing run skips silently) must contribute nothing to the all-in-one file",
 ]
